@@ -174,3 +174,38 @@ Theorem C03_visits_stable :
   exists x', y_pass cx pr x = (x', Ok tt) /\ tinv cnt true k iota x' e.
 Proof. exact pass_inv. Qed.
 Print Assumptions C03_visits_stable.
+
+(** Constants meeting a floating-point destination (float32(c), float64(c), const x float32 = c,
+    var x float32 = c, operands unified with a typed float): convertConst rounds the exact value
+    once, to nearest even in the format of the destination — for every rational and every integer
+    whose rounded value is finite and not zero it yields exactly the value of the specification. *)
+Theorem C03_float_conv :
+  forall q t r, is_float t = true -> round_t t q = Some r -> q_is_zero r = false ->
+    convert_const (CRat q) t = Ok (VM t (MF (FQ r))) /\ g_repr (GQ q) t = Some (GQ r).
+Proof. exact float_conv_single. Qed.
+Print Assumptions C03_float_conv.
+
+Theorem C03_float_conv_int :
+  forall z t r, is_float t = true -> round_t t (qz z) = Some r -> q_is_zero r = false ->
+    convert_const (CInt z) t = Ok (VM t (MF (FQ r))) /\ g_repr (GI z) t = Some (GQ r).
+Proof. exact float_conv_single_int. Qed.
+Print Assumptions C03_float_conv_int.
+
+(** non-vacuity, and: rounding through float64 first is another function (1 + 2^-24 + 2^-60 goes to
+    1.0000001 directly and to 1 through float64); the model, like the code, rounds once *)
+Example C03_float_conv_inhabited :
+  round_t TFloat32 q_mid = Some (8388609 # 8388608) /\ double32 q_mid = Some (1 # 1)
+  /\ y_run (PExpr (EConv TFloat32 (EFloat q_mid))) = Printed [(TFloat32, OF (8388609 # 8388608))]
+  /\ g_run (PExpr (EConv TFloat32 (EFloat q_mid))) = Printed [(TFloat32, OF (8388609 # 8388608))]
+  /\ y_run (one_const true (Some TFloat32) (EFloat q_mid)) = Printed [(TFloat32, OF (8388609 # 8388608))]
+  /\ y_run (PVar (Some TFloat32) (EFloat q_mid)) = Printed [(TFloat32, OF (8388609 # 8388608))].
+Proof. exact double_rounding_differs. Qed.
+Print Assumptions C03_float_conv_inhabited.
+
+(** region decl-type-propagation: const c float32 = (1 + 2^-24) + 2^-60 is rounded twice *)
+Theorem C03_decl_double_rounding_refuted :
+  y_run (one_const true (Some TFloat32) w_decl_round) = Printed [(TFloat32, OF (1 # 1))]
+  /\ g_run (one_const true (Some TFloat32) w_decl_round) = Printed [(TFloat32, OF (8388609 # 8388608))]
+  /\ y_run (PExpr (EConv TFloat32 w_decl_round)) = g_run (PExpr (EConv TFloat32 w_decl_round)).
+Proof. exact decl_double_rounding_refuted. Qed.
+Print Assumptions C03_decl_double_rounding_refuted.
